@@ -11,6 +11,7 @@ use crate::trace::Trace;
 pub enum Unit {
     C14Case(props::c14::Case),
     Seeded { gen: String, seed: u64 },
+    Fixed(Box<Trace>),
 }
 
 pub struct Plan {
@@ -73,6 +74,25 @@ pub fn build_plan(property: &str, tier: &str, seed: u64, ctx: &Arc<ExecCtx>) -> 
             plan.required_probes = vec!["fault_applied", "call_consumed_fault", "error_names_file", "recovered_identical", "equals_fresh_session", "cached_table_keeps_answering"].into_iter().map(String::from).collect();
             plan.exhaustive = false;
         }
+        "C08" => {
+            let names = props::common::pref_names(&ctx.base);
+            for t in props::c08::directed(&names) {
+                plan.units.push(Unit::Fixed(Box::new(t)));
+            }
+            let en = props::c14::reachable_files(ctx, &props::common::Config::new("en", "ClearSpeak", "Nemeth"))?;
+            plan.c14_reachable.insert("en".into(), en);
+            seeded(&mut plan, "c08-random", if quick { 600 } else { 60_000 }, 8);
+            plan.rule = "directed: every entry point as the first call of a session and right after set_rules_dir; every entry point right after each class of error; every preference name x 12 value classes followed by the calls that consume the value (under no engine, SSML, SAPI5); plus seeded random histories of 5-120 calls over all 16 entry points with valid, invalid, wrong-kind, empty, stale and out-of-range arguments (20% of the runs also break rule files mid-history). Oracles: every call returns Ok or Err (panics caught, aborts/hangs by the supervisor); recovery: a valid expression set next yields byte for byte what a fresh session with the same preference values yields; a failed set_mathml leaves the previous outputs unchanged. non-trivial = at least one call returned an error; distinct = distinct trace hashes".into();
+            plan.required_probes = vec!["api_error_seen", "recovered_like_fresh_session", "failed_set_mathml_checked"].into_iter().map(String::from).collect();
+        }
+        "C11" => {
+            for t in props::c11::directed() {
+                plan.units.push(Unit::Fixed(Box::new(t)));
+            }
+            seeded(&mut plan, "c11-random", if quick { 600 } else { 60_000 }, 11);
+            plan.rule = "directed scenarios (place marker across a change of expression, undo after the invisible-operator retry loop, walks in every navigation mode, failed set_mathml, set_navigation_node) plus seeded random histories of 5-150 navigation commands / key presses / set_navigation_node / changes of expression (valid, invalid, fed-back) over every pool expression and navigation preference; after every step the reference model (position, undo stack, ten place markers) and the invariants (id in current expression, MathML and braille of the node retrievable) are checked; non-trivial = at least one command changed the position; distinct = distinct trace hashes".into();
+            plan.required_probes = vec!["position_changed", "undo_returned", "moved_to_placemarker", "read_command_stayed", "expression_changed", "undo_at_bottom", "set_navigation_node_ok"].into_iter().map(String::from).collect();
+        }
         _ => return Err(format!("no plan for property {}", property)),
     }
     Ok(plan)
@@ -83,8 +103,11 @@ pub fn unit_trace(plan: &Plan, i: usize, ctx: &Arc<ExecCtx>) -> Trace {
         Unit::C14Case(c) => props::c14::case_trace(c),
         Unit::Seeded { gen, seed } => match gen.as_str() {
             "c14-random" => props::c14::random_trace(*seed, ctx, &plan.c14_reachable),
+            "c11-random" => props::c11::random_trace(*seed),
+            "c08-random" => props::c08::random_trace(*seed, &props::common::pref_names(&ctx.base), plan.c14_reachable.get("en").map(|v| v.as_slice()).unwrap_or(&[])),
             _ => Trace::new(&plan.property, "none"),
         },
+        Unit::Fixed(t) => (**t).clone(),
     }
 }
 
@@ -92,12 +115,15 @@ pub fn unit_label(plan: &Plan, i: usize) -> String {
     match &plan.units[i] {
         Unit::C14Case(_) => format!("case{}", i),
         Unit::Seeded { seed, .. } => format!("seed{}", seed),
+        Unit::Fixed(_) => format!("directed{}", i),
     }
 }
 
 pub fn nontrivial(property: &str, out: &RunOutput) -> bool {
     match property {
         "C14" => out.stats.probes.get("call_consumed_fault").copied().unwrap_or(0) > 0 || out.stats.faults_consumed.values().sum::<u64>() > 0,
+        "C08" => out.stats.api_err > 0,
+        "C11" => out.stats.probes.get("position_changed").copied().unwrap_or(0) > 0,
         _ => out.stats.api_calls > 3,
     }
 }
